@@ -62,10 +62,16 @@ pub fn run(a: &Args) {
     let mut r = Rng::new(a.seed);
     let all = algs();
     let n = if a.thorough { 20000 } else { 900 };
-    for i in 0..n {
+    let mut inputs: Vec<(crate::dynval::Ty, Val)> = gen::block_write_boundary_vals(&mut r, a.thorough);
+    let nb_boundary = inputs.len();
+    for _ in 0..n {
         let t = gen::gen_ty(&mut r, 3);
         let v: Val = gen::gen_val(&mut r, &t, 5);
+        inputs.push((t, v));
+    }
+    for (i, (t, v)) in inputs.into_iter().enumerate() {
         let vs = v.to_string();
+        o.bump(if i < nb_boundary { "input:block_write_boundary" } else { "input:generated" });
         let plain = match postcard::to_allocvec(&v) {
             Ok(b) => b,
             Err(_) => continue,
@@ -134,7 +140,9 @@ pub fn run(a: &Args) {
         } else {
             o.fail("from_bytes_cobs of the stack succeeds", vs.clone(), format!("{:?}", dec.map(|v| v.to_string())), hex(&with_crc));
         }
-        o.sample(format!("{} {} => {}", alg.alg.name, vs, hex(&stack)));
+        if i >= nb_boundary {
+            o.sample(format!("{} {} => {}", alg.alg.name, vs, hex(&stack)));
+        }
     }
-    o.finish(&a.summary, "generated shapes/values x stacks {COBS, CRC of each width, CRC inside COBS} x innermost storage {slice, heapless, growable} x a recording user flavour with and without a try_extend override; oracle: output == independent COBS/CRC transforms applied to to_allocvec's bytes, layers undone in reverse order give back the value; distinct = distinct value, non-trivial = non-empty encoding");
+    o.finish(&a.summary, "generated shapes/values plus str/bytes payloads whose block writes end around each 254-byte COBS boundary x stacks {COBS, CRC of each width, CRC inside COBS} x innermost storage {slice, heapless, growable} x a recording user flavour with and without a try_extend override; oracle: output == independent COBS/CRC transforms applied to to_allocvec's bytes, layers undone in reverse order give back the value; distinct = distinct value, non-trivial = non-empty encoding");
 }
